@@ -8,7 +8,7 @@ THEOREMS = [
     "Sb.C02.opcodes_match_format", "Sb.C02.timing_constants", "Sb.C02.loopBegin_depth", "Sb.C02.loopEnd_depth",
     "Sb.C02.loopBegin_full", "Sb.C02.loopEnd_cases", "Sb.C02.pyro_mask", "Sb.C02.lerpChan_zero", "Sb.C02.lerpChan_one",
     "Sb.C02.lerpChan_le", "Sb.C02.ended_held", "Sb.C02.execCommand_ended", "Sb.C02.step_total",
-    "Sb.C02.machine_running", "Sb.C02.machine_running_upTo", "Sb.C02.answer_on_chain_upTo", "Sb.C02.demoForever_runs", "Sb.C02.demoJ_wf", "Sb.C02.demoT_wf", "Sb.C02.demoT_terminates", "Sb.Proofs.Light.exec_trigger", "Sb.C02.demoJ_runs", "Sb.Proofs.Light.exec_jump", "Sb.C02.machine_ended", "Sb.C02.loop_repeats", "Sb.C02.demoL_terminates",
+    "Sb.C02.machine_running", "Sb.C02.machine_running_upTo", "Sb.C02.answer_on_chain_upTo", "Sb.C02.demoForever_runs", "Sb.C02.demoJ_wf", "Sb.C02.demoT_wf", "Sb.C02.demoT_terminates", "Sb.Proofs.Light.exec_trigger", "Sb.C02.demoJ_runs", "Sb.C02.jump_out_terminates", "Sb.C02.demoX_wf", "Sb.C02.demoX_terminates", "Sb.Proofs.Light.exec_jump", "Sb.C02.machine_ended", "Sb.C02.loop_repeats", "Sb.C02.demoL_terminates",
     "Sb.Proofs.Light.machine_chain", "Sb.Proofs.Light.machine_end", "Sb.Proofs.Light.step_machine", "Sb.Proofs.Light.loop_unrolled",
     "Sb.C02.straight_line_running", "Sb.C02.straight_line_ended", "Sb.C02.straight_fades_short", "Sb.C02.demo_wf",
     "Sb.Proofs.Light.chain_timeline", "Sb.Proofs.Light.chain_end", "Sb.Proofs.Light.exec_cmd", "Sb.Proofs.Light.varintAt_varint",
